@@ -153,6 +153,8 @@ class MemFile:
 
     def write(self, data):
         end = self.pos + len(data)
+        if end > (64 << 20):
+            raise IOError(errno.EFBIG, "pv: in-memory file limit")
         if len(self.store) < self.pos:
             self.store.extend(b"\0" * (self.pos - len(self.store)))
         self.store[self.pos:end] = data
@@ -268,6 +270,8 @@ def make_memfs():
             fs.budget_hit = False
             fs.open_fault = None
             fs.stat_fault = None
+            fs.force = None
+            fs.links = {}
             cls.instance = fs
             return fs
 
@@ -377,11 +381,34 @@ def make_memfs():
             return SFTP_OK
 
         def readlink(self, path):
-            return SFTP_OP_UNSUPPORTED
+            path = self._norm(path)
+            links = getattr(self, "links", {})
+            if path in links:
+                return links[path]
+            return SFTP_NO_SUCH_FILE
 
         def symlink(self, target_path, path):
             return SFTP_OP_UNSUPPORTED
 
+    # ---- forced outcomes for the request-level harness (C30): fs.force = {"code": int|None, "raise": bool}
+    def _forced(orig):
+        def wrapped(self, *a, **k):
+            fs = self if isinstance(self, MemFS) else self.fs
+            f = getattr(fs, "force", None)
+            if f:
+                if f.get("raise"):
+                    raise RuntimeError("pv: injected callback failure")
+                if f.get("code") is not None:
+                    return f["code"]
+            return orig(self, *a, **k)
+        wrapped.__name__ = orig.__name__
+        return wrapped
+
+    for name in ("open", "stat", "lstat", "list_folder", "remove", "rename", "posix_rename", "mkdir", "rmdir",
+                 "chattr", "readlink", "symlink"):
+        setattr(MemFS, name, _forced(getattr(MemFS, name)))
+    for name in ("read", "write", "stat", "chattr"):
+        setattr(MemHandle, name, _forced(getattr(MemHandle, name)))
     return MemFS, MemHandle
 
 
@@ -481,6 +508,31 @@ class ThreadedSession:
                 if box:
                     return box[0]
                 raise InfraError("sftp client call neither finished nor quiesced within %.0f s" % limit)
+
+    # ---- raw requests (C30): write a packet, wait until the server is idle again, collect what it sent
+    def raw_exchange(self, packets, limit=60.0):
+        """Send raw request packets (bytes: type byte + payload each); returns the list of (type, payload) the
+        server answered with once it waits for the next request with nothing left to read."""
+        import struct
+
+        blob = b"".join(struct.pack(">I", len(p)) + p for p in packets)
+        self.cend.send(blob)
+        c2s, s2c = self.cend.tx, self.cend.rx
+        t_end = time.time() + limit
+        with self.world.cv:
+            while not (not c2s.buf and self.sthread.ident in c2s.waiters) and self.sthread.is_alive():
+                if time.time() > t_end:
+                    raise InfraError("sftp server neither answered nor went idle within %.0f s" % limit)
+                self.world.cv.wait(0.25)
+            buf = bytes(s2c.buf)
+            del s2c.buf[:]
+        out, i = [], 0
+        while len(buf) - i >= 4:
+            size = struct.unpack(">I", buf[i:i + 4])[0]
+            body = buf[i + 4:i + 4 + size]
+            out.append((body[0] if body else None, body[1:]))
+            i += 4 + size
+        return out
 
     def close(self):
         try:
@@ -660,7 +712,10 @@ class DetSession:
         self.server.sock = _SrvSock(self)
         # version exchange, free running
         self._free_init()
-        self.client = SFTPClient(self.sock)
+        try:
+            self.client = SFTPClient(self.sock)
+        except Hang:
+            raise InfraError("deterministic session: version exchange got no answer")
         self._orig_threading = sf.threading
         self._orig_time = sf.time
         sess = self
